@@ -4,12 +4,12 @@ import json, os, sys
 ROOT = os.path.dirname(os.path.dirname(os.path.abspath(__file__)))
 sys.path.insert(0, os.path.join(ROOT, "lib"))
 from props import PROPS, META
-from manifest_meta import NOT_APPLICABLE, HOOKS, NOTES
+from manifest_meta import NOT_APPLICABLE, HOOKS, NOTES, PENDING
 
 ALL = ["C%02d" % i for i in range(1, 21)]
 checks = []
 for pid in ALL:
-    if pid not in PROPS or pid not in META:
+    if pid not in PROPS or pid not in META or pid in PENDING:
         continue
     m = META[pid]
     checks.append({
@@ -25,7 +25,10 @@ for pid in ALL:
     })
 na = []
 for pid in ALL:
-    if pid in PROPS and pid in META:
+    if pid in PROPS and pid in META and pid not in PENDING:
+        continue
+    if pid in PENDING:
+        na.append({"property_id": pid, "reason": PENDING[pid]})
         continue
     na.append({"property_id": pid, "reason": NOT_APPLICABLE.get(pid, "check not built yet in this round; no claim is made for this property")})
 man = {
